@@ -35,6 +35,7 @@ EXPLANATION = (
     "DET-1: the variate compared with the field-0 probability is the normal CDF of the Gaussian field, "
     "(erf(g / sqrt 2) + 1) / 2 or ndtr(g); the scale of the argument is checked numerically from the "
     "literal. "
+    " The Gaussian-field argument of each propagate method is identified by its position in the signature (its name differs between the classes). SIB-1: the fast propagator and its brute-force reference resolve _build_propagation_intermediates (exp_h1, mean-field shifts) to one and the same function. A scan body whose update blocks are written in a form the peeling does not recognise is noted and not judged; the recognised blocks still are. "
 )
 NOT_DECIDED = (
     "exact unbiasedness over the 2^n field configurations; correctness of the Wick ratio and the "
